@@ -127,8 +127,12 @@ def run_history(args):
         ffilters = [('none', None), ('a$', r'a$'), ('[ab]$', r'[ab]$'), ('no-match', r'nomatch$'), ('trailing-space', 'a$ '),
                     ('space-only', ' '), ('leading-space', ' a$')]
         rs, rf = (sfilters, ffilters) if (len(states) < 3 or FULL[0]) else ([sfilters[0], sfilters[2], sfilters[-2], sfilters[-1]], ffilters[:2])
+        if not any(f[0] == 'trailing-space' for f in rf):
+            rf = list(rf) + [f for f in ffilters if f[0] in ('trailing-space', 'space-only', 'leading-space')]
         for sname, sre in rs:
             for fname, fre in rf:
+                if fname in ('trailing-space', 'space-only', 'leading-space') and sname != 'none':
+                    continue     # white-space handling does not depend on the snapshot filter: once per history
                 nchecks[0] += 1
                 target = root / f'out-{nchecks[0]}'
                 repo = await W.a_open(W.Store(st.o), user, N=2)
